@@ -218,3 +218,44 @@ theorem C03_release_stays_enabled (w w' : World) (ls : List Label) (e : EId) (he
 
 end Thm
 end Bubus
+
+namespace Bubus.Thm
+
+/-- **C17**: an activation of a WAL bus ends normally only after its WAL write was attempted — no processed event is
+    skipped — and the write happens after all its handlers finished (the line records the finished event). -/
+theorem C17_activation_ends_only_after_its_wal_attempt (w w' : World) (p : Proc) (b : BId) (e : EId)
+    (hs : step w (.peEnd p b e) = some w') (hwal : (w.bus b).wal = true) :
+    ∃ A, w.act p = some A ∧ A.bus = b ∧ A.ev = e ∧ A.walDone = true ∧ A.todo = [] ∧ A.running = [] := by
+  obtain ⟨hg, _⟩ := step_some hs
+  simp [guard, checks, Checks.ok] at hg
+  obtain ⟨h1, h2, h3, _⟩ := hg
+  cases hA : w.act p with
+  | none => simp [actIs, hA] at h1
+  | some A =>
+    simp [actIs, hA] at h1
+    simp [hA] at h2
+    rcases h3 with h3 | h3
+    · rw [hwal] at h3; cases h3
+    · simp [hA] at h3
+      exact ⟨A, rfl, h1.1, h1.2, h3, h2.1, h2.2⟩
+
+/-- **C17**: the WAL write of an activation happens at most once (the attempt is recorded in the activation, a second
+    one is not enabled), only on a WAL bus, and only once every handler of the activation has finished. -/
+theorem C17_one_wal_attempt_per_activation (w w' : World) (p : Proc) (b : BId) (e : EId) (ok : Bool)
+    (hs : step w (.walWrite p b e ok) = some w') :
+    (w.bus b).wal = true ∧
+    (∃ A, w.act p = some A ∧ A.bus = b ∧ A.ev = e ∧ A.walDone = false ∧ A.todo = [] ∧ A.running = []) ∧
+    (∃ A', w'.act p = some A' ∧ A'.walDone = true) := by
+  obtain ⟨hg, rfl⟩ := step_some hs
+  simp [guard, checks, Checks.ok] at hg
+  obtain ⟨h1, h2, h3, h4⟩ := hg
+  cases hA : w.act p with
+  | none => simp [actIs, hA] at h1
+  | some A =>
+    simp [actIs, hA] at h1
+    simp [hA] at h2 h4
+    refine ⟨h3, ⟨A, rfl, h1.1, h1.2, h4, h2.1, h2.2⟩, ?_⟩
+    simp only [apply, apply0, wake_act, hA]
+    cases ok <;> simp
+
+end Bubus.Thm
